@@ -29,6 +29,10 @@ type c01Case struct {
 	Doc     string          `json:"doc,omitempty"`
 	Changes []refbuf.Change `json:"changes,omitempty"`
 	Ops     []c01Op         `json:"ops,omitempty"`
+	// Version: version number of the change notification; EarlierSession: the same
+	// URI had a session before in which a change carried version 9
+	Version        int  `json:"version,omitempty"`
+	EarlierSession bool `json:"earlier_session_of_the_uri,omitempty"`
 }
 
 func c01Docs(maxUnits int) []string {
@@ -133,6 +137,8 @@ func c01Cause(b *refbuf.Buffer, c refbuf.Change) string {
 	return strings.Join(tags, " + ")
 }
 
+var c01Sessions int
+
 func c01Mirror(c *core.Ctx, s *wire.Session, doc string, changes []refbuf.Change) {
 	ref := refbuf.New(doc)
 	asFull := refbuf.New(doc) // what results if empty ranges at 0:0 are taken for range-less changes
@@ -150,14 +156,22 @@ func c01Mirror(c *core.Ctx, s *wire.Session, doc string, changes []refbuf.Change
 		}
 	}
 	s.DidOpen(c01URI, doc)
-	r := s.Notify("textDocument/didChange", c01ChangeNotification(c01URI, 2, changes))
+	// every case is a new session of the same URI on the same server; version
+	// numbers restart with each session (9 in one, 2 in the next: a lower number
+	// than the server saw before for this URI is normal after a re-open)
+	c01Sessions++
+	version := 2
+	if c01Sessions%2 == 1 {
+		version = 9
+	}
+	r := s.Notify("textDocument/didChange", c01ChangeNotification(c01URI, version, changes))
 	got, ok := s.Srv.GetDocument(protocol.DocumentURI(c01URI))
 	s.DidClose(c01URI)
 	c.Res.Evaluations++
 	if cause != "plain in-range change" {
 		c.Res.Nontrivial++
 	}
-	cas := c01Case{Part: "mirror", Doc: doc, Changes: changes}
+	cas := c01Case{Part: "mirror", Doc: doc, Changes: changes, Version: version, EarlierSession: c01Sessions > 1}
 	if !r.OK() {
 		c.Violate("mirror|"+cause+"|notification failed", "didChange is accepted", r.Err+r.Panic, cas)
 		return
@@ -376,6 +390,16 @@ func checkC01(c *core.Ctx) {
 		if cs.Part == "mirror" {
 			s := wire.New()
 			s.Initialize(wire.InitOpts{})
+			if cs.EarlierSession {
+				// an earlier session of the URI (its change carried version 9)
+				c01Sessions = 0
+				c01Mirror(c, s, "a", []refbuf.Change{{Text: "b"}})
+			}
+			if cs.Version == 2 {
+				c01Sessions = 1
+			} else {
+				c01Sessions = 0
+			}
 			c01Mirror(c, s, cs.Doc, cs.Changes)
 		} else {
 			c01History(c, cs.Ops)
